@@ -959,6 +959,22 @@ func connItem(m *dns.Msg, err error) delivered {
 func (s *scenario) runDgram(tm *tamper, k int, salt uint64) *sessObs {
 	o := &sessObs{}
 	dc := netfake.NewDgramConn(nil)
+	// a read beyond the scripted datagrams fails at once (no waiting for a deadline)
+	finished := make(chan struct{})
+	defer close(finished)
+	armed := make(chan struct{})
+	go func() {
+		select {
+		case <-armed:
+		case <-finished:
+			return
+		}
+		select {
+		case <-dc.Drained:
+			dc.Close()
+		case <-finished:
+		}
+	}()
 	fired := false
 	dc.OnWrite = func(_ net.Addr, b []byte) {
 		if fired {
@@ -968,6 +984,7 @@ func (s *scenario) runDgram(tm *tamper, k int, salt uint64) *sessObs {
 		for _, e := range s.script(o, clone(b), tm, k, salt) {
 			dc.Push(e, nil)
 		}
+		close(armed)
 	}
 	q := s.query()
 	switch s.kind {
@@ -1495,6 +1512,40 @@ func waitErr(ch chan error) bool {
 	}
 }
 
+// probeReusedConn records (as a counter, not as an oracle: the property speaks
+// about TsigGenerate under a given request MAC) what Conn.WriteMsg does with a
+// second signed request on the same connection: the running MAC of the first
+// request is still in place, so the second request is signed over it and is not
+// an RFC 8945 request (a server verifies requests without a request MAC).
+func probeReusedConn(r *Rng) {
+	k := genSessKeys(r, false)
+	now := uint64(time.Now().Unix())
+	fc := netfake.NewConn(nil)
+	fc.HoldOpen = true
+	co := &dns.Conn{Conn: fc, TsigSecret: k.secrets}
+	for i := 0; i < 2; i++ {
+		q := new(dns.Msg)
+		q.SetQuestion("reuse."+xfrZone, dns.TypeA)
+		q.SetTsig(k.key, dns.HmacSHA256, 300, int64(now))
+		if co.WriteMsg(q) != nil {
+			return
+		}
+	}
+	w := fc.Written()
+	for i := 0; len(w) >= 2; i++ {
+		l := int(binary.BigEndian.Uint16(w))
+		if 2+l > len(w) {
+			break
+		}
+		if refVerify(w[2:2+l], k, nil, false, now) {
+			st["sess_reused_conn_request_"+Itoa(i)+"_rfc_valid"]++
+		} else {
+			st["sess_reused_conn_request_"+Itoa(i)+"_signed_over_stale_mac"]++
+		}
+		w = w[2+l:]
+	}
+}
+
 // ---------------------------------------------------------------------------
 // driver
 // ---------------------------------------------------------------------------
@@ -1583,6 +1634,7 @@ func runSessions(r *Rng, tier string) {
 			}
 		}
 	}
+	probeReusedConn(r)
 	// server side
 	nsrv := 3
 	if thorough {
